@@ -39,8 +39,14 @@ func CompileAllOf(rootSchema *schema.Schema) {
 		c.processType(name)
 	}
 
+	// The types known to the inherited types are made known to the root schema,
+	// but a name the root schema has itself keeps its meaning: what "@x" stands
+	// for in the text of the root is not decided by a type it inherits from.
+	known := rootSchema.TypesList()
 	for n, t := range c.foundTypes {
-		rootSchema.AddType(n, t)
+		if _, ok := known[n]; !ok {
+			rootSchema.AddType(n, t)
+		}
 	}
 }
 
@@ -87,7 +93,11 @@ func (c *allOfConstraintCompiler) extendWith(node schema.Node, name string) {
 	schem := c.processType(name)
 
 	for n, t := range schem.TypesList() {
-		c.foundTypes[n] = t
+		// Of two inherited types that bring the same name the one listed first
+		// wins (not the one the map happens to yield last).
+		if _, ok := c.foundTypes[n]; !ok {
+			c.foundTypes[n] = t
+		}
 	}
 
 	fromObject, ok := schem.RootNode().(*schema.ObjectNode)
